@@ -25,6 +25,8 @@ class C01(Prop):
         return line.split(' ')[0]
 
     def nontrivial(self, line):
+        if line.startswith('xs '):
+            return True
         h = line.split(' ')[2 if line.startswith('c1 ') else 1]
         src = bytes.fromhex(h).decode('utf-8', 'replace') if h != '-' else ''
         return any(k in src.split() for k in ('if', 'do', 'begin', 'case', ':'))
@@ -83,6 +85,17 @@ class C01(Prop):
             g = Gen(rng, meta=False, bad=0.03 if i % 5 else 0.12, io=(i % 3 == 0), reals=False, plain=(i % 4 != 0))
             # restrict to the grammar of C01: no builders/tags/let/foreach beyond what Struct.v parses -> those become unsupported
             cs.append('c1 6000 %s' % hexsrc(g.program()))
+        # histories: a counted loop / call abandoned by a run-time error leaves nothing visible to the next source
+        self.after_fail = {}
+        fails_ = ['5 0 do 10 I 3 - / drop loop', '3 0 do 2 0 do 1 0 / loop loop', ': f 4 0 do I 2 == if "x" 1 + then loop ; f', '2 0 do nosuch loop',
+                  '3 0 do I 1 == if 1 assert-eq then loop', '[ 1 2 3 ] foreach I 2 == if drop drop then loop']
+        probes_ = [('I', 'ELoopUnderflow'), ('J', 'ELoopUnderflow'), ('2 0 do J loop', 'ELoopUnderflow'), ('3 0 do I loop', 'ok'), ('depth', 'ok'),
+                   (': g I ; g', 'ELoopUnderflow'), ('K', 'ELoopUnderflow')]
+        for f_ in fails_:
+            for pr, want in probes_:
+                case = 'xs limits 6000 - - | eval %s | eval %s | stack' % (hexsrc(f_), hexsrc(pr))
+                cs.append(case)
+                self.after_fail[case] = want
         # the same sources compiled only: the emitted bytecode against the compiled mirror and against the jump-resolved layout
         # of the parsed tree (Struct.layout_program) - the object the compile-correctness theorems of Props/C01.v are about
         cs += ['c1c %s' % c.split(' ')[2] for c in cs]
@@ -105,6 +118,24 @@ class C01(Prop):
         return False
 
     def group_check(self, cases, impl):
+        r = self.group_check_limit(cases, impl)
+        fails = list(r[1])
+        n = r[0]
+        for c, o in zip(cases, impl):
+            if c in getattr(self, 'after_fail', {}):
+                n += 1
+                ou = o.split(' | ')
+                want = self.after_fail[c]
+                if ou[1] == 'ok':
+                    continue        # the first source did not fail (not the situation this family is about)
+                got = ou[2].split('(')[0]
+                if got != want:
+                    fails.append(('case: %s\nsources: %s\nresult: %s' % (c, ' ;; '.join(bytes.fromhex(x.split(' ')[1]).decode() for x in c.split(' | ')[1:3]), o[:400]),
+                                  'after a source that failed inside a loop, `%s` gives %s (expected %s): a loop index of the abandoned loop is visible' % (
+                                      bytes.fromhex(c.split(' | ')[2].split(' ')[1]).decode(), got, want)))
+        return n, fails, r[2], r[3]
+
+    def group_check_limit(self, cases, impl):
         """programs stopped by the instruction limit are run again under a limit 20 times larger; those that finish are compared
         with both models under that limit, those that do not must not have finished structurally either"""
         from . import lib
